@@ -45,12 +45,12 @@ const lcClients, lcDocs = 2, 2
 // ------------------------------------------------------------------ model
 
 type lcModel struct {
-	Cli [lcClients]byte            // n(one) a(ctivated) d(eactivated)
-	Att [lcClients][lcDocs]byte    // n(one) a(ttached) d(etached) r(emoved)
-	Gen [lcClients][lcDocs]int     // document generation the attachment refers to
-	Cur [lcDocs]int                // current generation of the key (bumped by remove)
-	Has [lcDocs]bool               // a live document exists for the key
-	Log [lcDocs]int                // changes stored in the current generation (not part of the canonical state)
+	Cli [lcClients]byte         // n(one) a(ctivated) d(eactivated)
+	Att [lcClients][lcDocs]byte // n(one) a(ttached) d(etached) r(emoved)
+	Gen [lcClients][lcDocs]int  // document generation the attachment refers to
+	Cur [lcDocs]int             // current generation of the key (bumped by remove)
+	Has [lcDocs]bool            // a live document exists for the key
+	Log [lcDocs]int             // changes stored in the current generation (not part of the canonical state)
 }
 
 func newLcModel() *lcModel {
